@@ -28,6 +28,11 @@ def vm_obligations(prop="C08"):
         m0, m1, m2 = SHAPES[op]
         o = vmstep.step(prop, "%s.vm.%s" % (prop, op), "h_c08", op, must_have=[r"C08\.vm", r"COVER"])
         o["defines"].update({"VERIF_M0": m0, "VERIF_M1": m1, "VERIF_M2": m2})
+        if op == "ARR_REMOVE":
+            # the in-range branch runs vm_array_remove's element-shifting loop: arrays capped at 8 elements for that branch;
+            # the out-of-range branch (the property) never enters the loop and is covered for the same lengths
+            o["defines"]["VERIF_ARR_CAP"] = 8
+            o["strength"] = "B(array capacity <= 8; index full int64)"
         obs.append(o)
     return obs
 
